@@ -85,15 +85,16 @@ Record GI (s : sstate) (g : ghost) : Prop := {
   (* nothing stored or being stored is ahead of the tracked position *)
   gi_store : forall vb d cur, s_store s vb = Some d -> s_offs s vb = Some cur -> d_seq d <= o_seq cur;
   gi_infl : forall dump dl vb d cur, s_inflight s = Some (dump, dl) -> lookup_doc dump vb = Some d ->
-            s_offs s vb = Some cur -> d_seq d <= o_seq cur
+            s_offs s vb = Some cur -> d_seq d <= o_seq cur;
+  gi_open : s_obs_nil s = false    (* the session is running *)
 }.
 
-(* GI looks at five fields only *)
+(* GI looks at six fields only *)
 Lemma GI_proj s s' g :
   GI s g -> s_ctxs s' = s_ctxs s -> s_offs s' = s_offs s -> s_range s' = s_range s -> s_store s' = s_store s ->
-  s_inflight s' = s_inflight s -> GI s' g.
+  s_inflight s' = s_inflight s -> s_obs_nil s' = s_obs_nil s -> GI s' g.
 Proof.
-  intros [A B C D E F G] H1 H2 H3 H4 H5. constructor; rewrite ?H1, ?H2, ?H3, ?H4, ?H5; auto.
+  intros [A B C D E F G Op] H1 H2 H3 H4 H5 H6. constructor; rewrite ?H1, ?H2, ?H3, ?H4, ?H5, ?H6; auto.
 Qed.
 
 Lemma queued_in i l : queued i l = true <-> exists q, In (i, q) l.
@@ -116,10 +117,10 @@ Lemma GI_set_offset s g vb x d l :
   (forall i q, In (i, q) (g vb) -> In (i, q) l \/ q <= o_seq x) ->
   GI (fst (set_offset s vb x d)) (gupd g vb l).
 Proof.
-  intros [A B C D E F G] Hsub Hinc Hlow Hcov.
+  intros [A B C D E F G Op] Hsub Hinc Hlow Hcov.
   pose proof (set_offset_spec s vb x d) as H. destruct (set_offset s vb x d) as [s' outs]. cbn [fst].
   destruct H as [R H].
-  destruct R as (_ & Rr & _ & _ & _ & _ & _ & _ & _ & _ & _ & _ & Rc & Ri & Rs & _).
+  destruct R as (_ & Rr & _ & Rn & _ & _ & _ & _ & _ & _ & _ & _ & Rc & Ri & Rs & _).
   assert (Offs : forall v, s_offs s' v = if accepts s vb x then fupd (s_offs s) vb x v else s_offs s v).
   { intros v. destruct (accepts s vb x); [destruct H as (_ & -> & _); reflexivity|destruct H as [_ ->]; reflexivity]. }
   assert (Mono : forall v cur', s_offs s' v = Some cur' -> exists cur, s_offs s v = Some cur /\ o_seq cur <= o_seq cur' \/ (v = vb /\ cur' = x)).
@@ -141,7 +142,7 @@ Proof.
       destruct (A vb i q Q) as (o' & Hn' & Hq). rewrite Hn in Hn'. injection Hn' as <-.
       destruct (Hcov i q Q) as [Hl|Hl]; [left; apply queued_in; eauto|].
       destruct (in_range (s_range s) vb) eqn:Rg; [|right; left; reflexivity].
-      right. right. rewrite Offs. unfold accepts. rewrite Rg. cbn [andb].
+      right. right. rewrite Offs. unfold accepts, accepts_open. rewrite Op, Rg. cbn [negb andb].
       destruct (E vb Rg) as [cur Hc]. rewrite Hc.
       destruct (o_seq x <? o_seq cur) eqn:Lt; cbn [negb].
       * apply N.ltb_lt in Lt. exists cur. split; [reflexivity|]. specialize (C vb cur i q Hc Q). lia.
@@ -149,30 +150,31 @@ Proof.
     + right. left. exact Q.
     + right. right. rewrite Offs. destruct (accepts s vb x) eqn:Acc; [|eauto].
       destruct (N.eq_dec v vb) as [->|Hne]; [|rewrite fupd_other by exact Hne; eauto].
-      rewrite fupd_same. exists x. split; [reflexivity|]. unfold accepts in Acc. rewrite Hc in Acc.
-      apply andb_true_iff in Acc. destruct Acc as [_ Acc]. apply negb_true_iff, N.ltb_ge in Acc. lia.
+      rewrite fupd_same. exists x. split; [reflexivity|]. apply accepts_true in Acc. destruct Acc as (_ & _ & Acc).
+      rewrite Hc in Acc. lia.
   - intros v Rg. rewrite Rr in Rg. destruct (E v Rg) as [cur Hc]. rewrite Offs.
     destruct (accepts s vb x); [|eauto]. destruct (N.eq_dec v vb) as [->|Hne]; [rewrite fupd_same; eauto|rewrite fupd_other by exact Hne; eauto].
   - intros v dd cur' Hs Hc. rewrite Rs in Hs. destruct (Mono v cur' Hc) as (cur & [[Hc0 Hle]|[-> ->]]).
     + specialize (F v dd cur Hs Hc0). lia.
     + (* the position was moved to x: accepted, so x is at or above the old one *)
       rewrite Offs in Hc. destruct (accepts s vb x) eqn:Acc.
-      * unfold accepts in Acc. apply andb_true_iff in Acc. destruct Acc as [Rg Acc].
-        destruct (E vb Rg) as [c0 Hc0]. rewrite Hc0 in Acc. apply negb_true_iff, N.ltb_ge in Acc.
+      * apply accepts_true in Acc. destruct Acc as (_ & Rg & Acc).
+        destruct (E vb Rg) as [c0 Hc0]. rewrite Hc0 in Acc.
         specialize (F vb dd c0 Hs Hc0). lia.
       * eapply F; eauto.
   - intros dump dl v dd cur' Hi Hl Hc. rewrite Ri in Hi. destruct (Mono v cur' Hc) as (cur & [[Hc0 Hle]|[-> ->]]).
     + specialize (G dump dl v dd cur Hi Hl Hc0). lia.
     + rewrite Offs in Hc. destruct (accepts s vb x) eqn:Acc.
-      * unfold accepts in Acc. apply andb_true_iff in Acc. destruct Acc as [Rg Acc].
-        destruct (E vb Rg) as [c0 Hc0]. rewrite Hc0 in Acc. apply negb_true_iff, N.ltb_ge in Acc.
+      * apply accepts_true in Acc. destruct Acc as (_ & Rg & Acc).
+        destruct (E vb Rg) as [c0 Hc0]. rewrite Hc0 in Acc.
         specialize (G dump dl vb dd c0 Hi Hl Hc0). lia.
       * eapply G; eauto.
+  - congruence.
 Qed.
 
 Lemma GI_ext s g g' : (forall v, g v = g' v) -> GI s g -> GI s g'.
 Proof.
-  intros E [A B C D F G H]. constructor; intros; rewrite <- ?E in *; eauto.
+  intros E [A B C D F G H Op]. constructor; intros; rewrite <- ?E in *; eauto.
 Qed.
 
 Lemma gupd_id g vb : forall v, gupd g vb (g vb) v = g v.
@@ -180,7 +182,7 @@ Proof. intros v. unfold gupd. destruct (N.eqb_spec v vb) as [->|]; reflexivity. 
 
 Lemma GI_save_body s g : GI s g -> GI (fst (save_body s)) g.
 Proof.
-  intros [A B C D E F G]. unfold save_body; cbn [fst]. constructor; cbn; auto.
+  intros [A B C D E F G Op]. unfold save_body; cbn [fst]. constructor; cbn; auto.
   intros dump dl vb d cur [= <- <-] Hl Hc. apply lookup_dump_of in Hl. destruct Hl as (o & Ho & ->).
   rewrite Hc in Ho. injection Ho as <-. cbn. lia.
 Qed.
@@ -198,7 +200,7 @@ Lemma GI_consume s g vb x :
   (forall cur, s_offs s vb = Some cur -> o_seq cur < o_seq x) ->
   GI (set_ctxs s (s_ctxs s ++ [(vb, x)])) (gupd g vb (g vb ++ [(length (s_ctxs s), o_seq x)])).
 Proof.
-  intros [A B C D E F G] Hb Hc.
+  intros [A B C D E F G Op] Hb Hc.
   assert (Hb' : forall i q, In (i, q) (g vb) -> q < o_seq x).
   { intros i q Hin. unfold below in Hb. rewrite forallb_forall in Hb. specialize (Hb _ Hin). cbn in Hb. now apply N.ltb_lt in Hb. }
   constructor; cbn [s_ctxs s_offs s_range s_store s_inflight set_ctxs].
@@ -225,6 +227,7 @@ Proof.
   - exact E.
   - exact F.
   - exact G.
+  - exact Op.
 Qed.
 
 Lemma store_fold_le dump dl (st : fmap doc) vb d :
@@ -293,13 +296,13 @@ Proof.
   - (* SaveWrite *)
     injection H as <-. destruct (s_inflight s) as [[dump dl]|] eqn:Ei; [|exact I].
     destruct (lookup_doc dump vb) as [d|] eqn:El; [|exact I]. destruct (mem vb dl); [|exact I]. cbn [fst].
-    destruct I as [A B C D E F G]. constructor; cbn; auto.
+    destruct I as [A B C D E F G Op]. constructor; cbn; auto.
     intros v dd cur Hs Hc. apply fupd_cases in Hs. destruct Hs as [[-> ->]|[_ Hs]]; [eapply G; eauto|eapply F; eauto].
   - (* SaveEnd *)
     injection H as <-. destruct (s_inflight s) as [[dump dl]|] eqn:Ei; [|exact I]. destruct ok.
-    + apply GI_drain. destruct I as [A B C D E F G]. constructor; cbn; auto; try discriminate.
+    + apply GI_drain. destruct I as [A B C D E F G Op]. constructor; cbn; auto; try discriminate.
       intros v dd cur Hs Hc. apply store_fold_le in Hs. destruct Hs as [Hs|Hs]; [eapply F; eauto|eapply G; eauto].
-    + apply GI_drain. destruct I as [A B C D E F G]. constructor; cbn; auto; discriminate.
+    + apply GI_drain. destruct I as [A B C D E F G Op]. constructor; cbn; auto; discriminate.
   - (* Scrape *)
     injection H as <-. destruct (s_obs_nil s); exact I.
 Qed.
@@ -341,4 +344,5 @@ Proof.
     + unfold loaded_doc in Hl. rewrite Hs in Hl. destruct (get0 (assoc (sv_high sv)) vb <? d_seq d); [discriminate|].
       injection Hl as <- _. cbn. lia.
   - intros dump dl vb d cur H. discriminate.
+  - reflexivity.
 Qed.
